@@ -437,16 +437,19 @@ def check_alloc_guards(ctx, rule="C13.G"):
         return
     st = stores[0]
     um, idx = st.targets[0].value.id, A.norm(st.targets[0].slice)
-    tests = G.enclosing_tests(al, st)
-    free_slot = any(pol and A.norm(t) == f"{um}[{idx}]isNone" for t, pol in tests) or any(not pol and A.norm(t) == f"{um}[{idx}]isnotNone" for t, pol in tests)
-    ctx.check(rule, "_allocate_physical_qubit:only-into-a-free-slot", free_slot, f"the store {src(st)} is not under `{um}[{idx}] is None`: a second allocation silently overwrites the mapping", repo.loc(m, st))
-    # the other arm raises
-    raises_taken = False
-    for n in ast.walk(al):
-        if isinstance(n, ast.If) and A.norm(n.test) == f"{um}[{idx}]isNone":
-            raises_taken = G.always_raises(n.orelse)
-        if isinstance(n, ast.If) and A.norm(n.test) == f"{um}[{idx}]isnotNone":
-            raises_taken = G.always_raises(n.body)
+    def slot_fact(t, pol, um_, idx_):
+        """+1: the fact says the slot is empty, -1: it says the slot is taken, 0: unrelated"""
+        n = A.norm(t)
+        if n == f"{um_}[{idx_}]isNone":
+            return 1 if pol else -1
+        if n == f"{um_}[{idx_}]isnotNone":
+            return -1 if pol else 1
+        return 0
+
+    free_slot = any(slot_fact(t, pol, um, idx) == 1 for t, pol in G.path_conditions(al, st))
+    ctx.check(rule, "_allocate_physical_qubit:only-into-a-free-slot", free_slot, f"the store {src(st)} is not reached only when `{um}[{idx}] is None`: a second allocation silently overwrites the mapping", repo.loc(m, st))
+    # the taken slot raises: some `raise` is reached exactly under the fact that the slot is taken
+    raises_taken = any(isinstance(n, ast.Raise) and any(slot_fact(t, pol, um, idx) == -1 for t, pol in G.path_conditions(al, n)) for n in A.body_nodes(al))
     ctx.check(rule, "_allocate_physical_qubit:taken-slot-raises", raises_taken, "allocating an already allocated virtual qubit does not raise", repo.loc(m, al))
     # bound check dominates
     strength = "none"
@@ -456,7 +459,7 @@ def check_alloc_guards(ctx, rule="C13.G"):
         cond = G.raising_condition(d)
         if cond is not None and G.mentions(cond, idx_expr):
             # upper bound len(unit_module): substitute len(...) by 4
-            c2 = _subst_len(cond, 4)
+            c2 = _subst_len(A.expand(cond, A.single_defs(al)), 4)
             s = G.range_strength(ev, m, c2, idx_expr, -10**40, 3)
             if s is not None:
                 sts.append(s)
@@ -472,18 +475,21 @@ def check_alloc_guards(ctx, rule="C13.G"):
         return
     st = clears[0]
     um, idx = st.targets[0].value.id, A.norm(st.targets[0].slice)
-    guarded = False
-    for t, pol in G.enclosing_tests(fr, st):
-        if (not pol and A.norm(t) == f"{um}[{idx}]isNone") or (pol and A.norm(t) == f"{um}[{idx}]isnotNone"):
-            guarded = True
-    for d in G.dominating_stmts(fr, st):
-        cond = G.raising_condition(d)
-        if cond is not None and A.norm(cond) == f"{um}[{idx}]isNone":
-            guarded = True
-    raises = False
-    for n in ast.walk(fr):
-        if isinstance(n, ast.If) and A.norm(n.test) == f"{um}[{idx}]isNone":
-            raises = G.always_raises(n.body)
+    # the read of the slot may go through a local (`physical_address = unit_module[address]`): facts about that local count
+    fdefs = A.single_defs(fr)
+    aliases = {k_ for k_, v_ in fdefs.items() if A.norm(v_) == f"{um}[{idx}]"}
+
+    def fact(t, pol):
+        n = A.norm(t)
+        for subj in [f"{um}[{idx}]"] + sorted(aliases):
+            if n == f"{subj}isNone":
+                return 1 if pol else -1
+            if n == f"{subj}isnotNone":
+                return -1 if pol else 1
+        return 0
+
+    guarded = any(fact(t, pol) == -1 for t, pol in G.path_conditions(fr, st))
+    raises = any(isinstance(n, ast.Raise) and any(fact(t, pol) == 1 for t, pol in G.path_conditions(fr, n)) for n in A.body_nodes(fr))
     ctx.check(rule, "_free_physical_qubit:empty-slot-raises", guarded and raises, "freeing an unallocated virtual qubit does not raise", repo.loc(m, fr))
     # qalloc / qfree handlers pass the register value to these
     for h, callee in (("_instr_qalloc", "_allocate_physical_qubit"), ("_instr_qfree", "_free_physical_qubit")):
